@@ -238,3 +238,35 @@ def imph_clauses(G, preserve, tag, total_h, fail):
         if sa != sb or ea != eb:
             fails.append(fail("implicit_hydrogen-reindex", "%s: reindex=True changes more than the numbering" % tag))
     return fails
+
+
+# --------------------------------------------------------------------------------------------------- NXToGML.transform, last intermediate state
+
+class RuleSpy:
+    """records what NXToGML.transform hands to NXToGML._rule_grammar: (L, R, K, changed_node_ids) after h_to_explicit of the
+    context and after the reindex relabelling"""
+
+    def __init__(self, gr_ord_obs):
+        self.obs = gr_ord_obs
+
+    def __enter__(self):
+        from synkit.IO.nx_to_gml import NXToGML
+        self.cls = NXToGML
+        self.orig = NXToGML.__dict__["_rule_grammar"]
+        f = self.orig.__func__
+        self.seen = []
+        spy = self
+
+        def g(L, R, K, rule_name, changed_node_ids, explicit_hydrogen):
+            spy.seen.append([spy.obs(L), spy.obs(R), spy.obs(K), [int(x) for x in changed_node_ids]])
+            return f(L, R, K, rule_name, changed_node_ids, explicit_hydrogen)
+        NXToGML._rule_grammar = staticmethod(g)
+        return self
+
+    def __exit__(self, *a):
+        self.cls._rule_grammar = self.orig
+        return False
+
+    def mid(self):
+        assert len(self.seen) == 1, len(self.seen)
+        return self.seen[0]
